@@ -9,6 +9,6 @@ git apply $M/patch.diff || { echo "patch does not apply"; git -C /repo worktree 
 echo "== tests with change:"; PYTHONPATH=$W /venv/bin/python -m pytest -q -p no:cacheprovider -x 2>&1 | tail -1
 echo "== demo with change:"; PYTHONPATH=$W /venv/bin/python $M/demo.py >/tmp/demo_mut_$$.log 2>&1; echo "   exit $? (expect non-zero)"; tail -2 /tmp/demo_mut_$$.log
 for c in $CHECKS; do
-  echo "== ./check $c --repo $W"; (cd /verif && ./check $c --repo $W 2>&1 | grep -E "^\[|VIOLATION|UNDECIDED|CHECKER|KNOWN" | cut -c1-260 | head -8; )
+  echo "== ./check $c --repo $W"; (cd /verif && ./check $c --repo $W 2>&1 | grep -E "^\[|VIOLATION|UNDECIDED|CHECKER|KNOWN" | cut -c1-260 | sort -r | head -8; )
 done
 cd /; git -C /repo worktree remove --force $W; rm -f /tmp/demo_clean_$$.log /tmp/demo_mut_$$.log
